@@ -388,8 +388,19 @@ verify_reopen(World& w, const Op& op)
     }
   sim::io::Bypass bypass;
   if (!(*rd->get_proj_data_info_sptr() == *w.pdi))
-    sim::fail("reopen:geometry", "geometry read back differs:\n%s\nvs written\n%s",
-              rd->get_proj_data_info_sptr()->parameter_info().c_str(), w.pdi->parameter_info().c_str());
+    {
+      // known finding (known_findings.json): data of a TOF scanner mashed to ONE TOF bin read back as non-TOF data, because
+      // the header only carries the TOF mashing factor when there is more than one TOF bin.  Only exactly that difference
+      // is stepped over; anything else in the geometry is still a violation.
+      shared_ptr<ProjDataInfo> as_non_tof(w.pdi->create_non_tof_clone());
+      if (w.pdi->is_tof_data() && w.pdi->get_num_tof_poss() == 1 && *rd->get_proj_data_info_sptr() == *as_non_tof)
+        sim::fail_soft("reopen:geometry:one_tof_bin_read_back_as_non_tof",
+                       "written with TOF mashing factor %d (one TOF bin), read back with TOF mashing factor %d", w.pdi->get_tof_mash_factor(),
+                       rd->get_proj_data_info_sptr()->get_tof_mash_factor());
+      else
+        sim::fail("reopen:geometry", "geometry read back differs:\n%s\nvs written\n%s",
+                  rd->get_proj_data_info_sptr()->parameter_info().c_str(), w.pdi->parameter_info().c_str());
+    }
   if (!(rd->get_exam_info() == *w.exam))
     sim::fail("reopen:exam_info", "exam info read back differs: %s vs %s", rd->get_exam_info().parameter_info().c_str(),
               w.exam->parameter_info().c_str());
@@ -429,7 +440,10 @@ create_world(World& w, const Plan& p)
   int max_delta = (int)std::min<long>(std::max<long>(p.c("max_delta", nrings - 1), (span - 1) / 2), nrings - 1);
   int views = ndet / 2 / (int)std::max<long>(1, p.c("view_mash", 1));
   int ntang = (int)std::max<long>(1, std::min<long>(p.c("ntang", ndet / 2), ndet / 2 + 1));
-  w.pdi = vu::make_pdi(sc, span, max_delta, views, ntang, false, tofb ? 1 : 0);
+  const int nbins_tof = tofb ? (tofb >= 5 ? 5 : 3) : 0;
+  w.pdi = vu::make_pdi(sc, span, max_delta, views, ntang, false, tofb ? (p.c("tof_mash_all", 0) ? nbins_tof : 1) : 0);
+  if (tofb && p.c("tof_mash_all", 0))
+    sim::probe("tof_scanner_mashed_to_one_tof_bin");
   w.exam = vu::make_exam_info();
   {
     TimeFrameDefinitions tf;
@@ -962,6 +976,9 @@ gen(uint64_t seed, const std::string& tier, long idx)
       ft.at = (long)r.below(3);
       o.faults.push_back(ft);
     }
+  // drawn last so that earlier draws keep their values: TOF data mashed so far that a single TOF bin is left
+  // (the usual way to get non-TOF data from a TOF scanner)
+  p.cfg["tof_mash_all"] = r.chance(0.2);
   (void)idx;
   return p;
 }
